@@ -361,6 +361,12 @@ def run(ctx):
         ctx.inst("C18.R6", "validate-after-curve-write/" + ixn, hasv and not bad and not unchecked,
                  "every write of an interest-curve field in %s is followed by the checked curve validator on all successful paths" % ixn,
                  "no validator call" if not hasv else (bad[0][1] if bad else ("unchecked at %s" % unchecked if unchecked else "ok")), h.loc(h.raw["span"]))
+    for c in v7.calls():
+        if c.callee and c.callee["name"] == "next":
+            bad = loop_early_exits(prog, v7, c.block)
+            it = expr_tree(prog, v7, c.args[0])
+            ctx.inst("C18.R2", "seven/loop-visits-everything/" + ("points" if "p1.points" in it and "Range" not in it else "pairs"), not bad,
+                     "the validation loop over %s is left only when exhausted or on an error" % it[:60], ["%s leaves the loop at %s" % (cc, v7.bloc(u)) for u, v_, cc in bad] or "ok", c.loc)
     ctx.floor("C18.R6", 8)
     ctx.floor("C18.R2", 12)
     ctx.floor("C18.R3", 8)
